@@ -57,6 +57,28 @@ def run(F, R):
     R.check(any("default_value" in b.field_reads() for b in F.with_nested(vv)), "R06.3", "var_value:default_value", vv.where(),
             "reads default_value", "var_value ignores variable defaults")
 
+    R.rule("R06.7", "explicit null stays null: var_value must not inspect the supplied variable's value — the definition's default_value is consulted only "
+                    "when the lookup in the request's variables yields nothing (or_else / None arm), never on a match over the value (a supplied `null` must not "
+                    "fall back to the default)")
+    fam = F.with_nested(vv)
+    val_sw = []
+    for x in fam:
+        for (bb, place, adt, arms, other, vmap) in x.enum_switches(r"async_graphql_value::ConstValue$"):
+            val_sw.append((x, bb, sorted(arms)))
+    dv_bodies = [x for x in fam if "default_value" in x.field_reads()]
+    in_or_else = False
+    for x in dv_bodies:
+        if x.kind == "closure":
+            # the closure reading default_value is passed to Option::or_else / unwrap_or_else / map_or_else
+            for (bb, cdef, st) in vv.closures_created():
+                if cdef == x.defp:
+                    for c in vv.calls():
+                        if c.callee and re.search(r"option::\{impl#\d+\}::(or_else|unwrap_or_else|map_or_else|or)$", c.callee) and any(a[0] in ("c", "m") and a[1][0] == st[0][0] for a in c.args):
+                            in_or_else = True
+    R.check(not val_sw and (in_or_else or not dv_bodies or all(x.kind != "closure" for x in dv_bodies) and False or in_or_else), "R06.7", "var_value:default-only-when-absent", vv.where(),
+            "default read inside or_else; no match on the value", "var_value branches on the variable's value %s / reads the default outside an or_else: an explicit `null` can be replaced by the default"
+            % [a for _, _, a in val_sw])
+
     R.rule("R06.4", "in Object/ComplexObject/Subscription expansions every argument passed to the user's resolver method derives from a "
                     "param_value::<T>() / oneof_param_value() result unwrapped with `?` (no resolver call is reachable after a failed parse)")
     n = 0
